@@ -20,6 +20,7 @@ LEVEL_TEXT = ('static sibling comparison of RT/NRT branches and wake-up protocol
               'Random calls; triage of unordered-container iteration. Equality of two executions is not decided.')
 LEVEL_NOTE = 'set iteration triage is a reasoned list; a new site is a violation until triaged'
 LEVEL_TEXT_ADD = ' Also: logical-time entry points never reach a physical-time read; functions that change a tempo map re-key pending NRT tasks; one NRT queue entry per (clock, task); NRT clear; NRT logical-time store is unconditional. Two mode differences are known findings.'
+LEVEL_TEXT_ADD += ' Rounds e-f: nrt branch of AppClock.sched normalises its delta like the rt scheduler; queue contract and score rules shared with C09/C07; per-thread generator (known finding).'
 LEVEL_TEXT = (globals().get('LEVEL_TEXT') or EXPLANATION) + LEVEL_TEXT_ADD
 TECHNIQUE = 'static analysis: sibling-branch normalisation and comparison + who-may-call/ownership rules + unordered-iteration census'
 
